@@ -104,45 +104,37 @@ func ruleC07ExistsMerge(c *Ctx) {
 		return
 	}
 	n, bad := 0, ""
-	var outerCopy, elemCopy *ssa.BasicBlock // the blocks of the two key-by-key copies into the merged row
-	allInstrs(f, func(b *ssa.BasicBlock, in ssa.Instruction) {
-		mu, ok := in.(*ssa.MapUpdate)
-		if !ok {
-			return
-		}
-		ex, ok := mu.Key.(*ssa.Extract)
-		if !ok || ex.Index != 1 {
-			return
-		}
-		nx, ok := ex.Tuple.(*ssa.Next)
-		if !ok {
-			return
-		}
-		srcT := NewTB().Of(nx.Iter.(*ssa.Range).X)
+	var outerCopy, elemCopy *mapCopy // the two key-by-key copies into the merged row
+	copies := mapCopies(f)
+	for i := range copies {
+		mc := &copies[i]
+		srcT := NewTB().Of(mc.Src)
 		src := srcT.String()
 		isOuter := srcT.Op == "param" || srcT.Op == "phi" && strings.Contains(src, "p:current") || srcT.Op == "call" && strings.Contains(srcT.Name, "BackwardNavigation")
 		if !isOuter {
 			if strings.Contains(src, "assert") || strings.Contains(src, ".from") {
-				elemCopy = nx.Block()
+				elemCopy = mc
 			}
-			return
+			continue
 		}
-		outerCopy = nx.Block()
+		outerCopy = mc
 		n++
-		for _, fc := range relFacts(factsAt(b)) {
-			if fc.x == ssa.Value(ex) {
-				bad = "the copy of the outer row's entries is filtered by a condition on the key at " + c.P.Pos(mu.Pos()) + ": an entry of the outer row (e.g. `<-`) is not visible inside the EXISTS predicate"
-			}
+		if mc.Cond {
+			bad = "the copy of the outer row's entries is filtered by a condition at " + c.P.Pos(mc.Pos) + ": an entry of the outer row (e.g. `<-`) is not visible inside the EXISTS predicate"
 		}
-	})
+	}
 	// scoping: the element's own entries are written after the outer row's, so that a column of the element hides the
 	// outer row's column of the same name (the subquery run standalone on the element sees the element's value)
 	if bad == "" && n > 0 {
 		switch {
 		case elemCopy == nil || outerCopy == nil:
 			bad = "the two key-by-key copies (outer row, nested element) into the merged row were not found"
-		case !(outerCopy.Dominates(elemCopy) && !elemCopy.Dominates(outerCopy)):
+		case !outerCopy.before(*elemCopy):
 			bad = "the outer row's entries are written after the nested element's: on a name collision the outer column overrides the element's own column inside the EXISTS predicate"
+		case elemCopy.Cond:
+			bad = "the copy of the nested element's entries is filtered by a condition at " + c.P.Pos(elemCopy.Pos) + ": an entry that is skipped (a NULL column, say) lets the outer row's column of the same name show through inside the EXISTS predicate"
+		case NewTB().Of(outerCopy.Dst).String() != NewTB().Of(elemCopy.Dst).String():
+			bad = "the outer row and the nested element are not merged into the same row"
 		}
 	}
 	c.Check(n > 0 && bad == "", "c07.exists-merge", c.P.funcKey(f), c.P.Pos(f.Pos()), "every entry of the outer row is copied, unconditionally", func() string {
@@ -499,6 +491,26 @@ func byteConstsCompared(fn *ssa.Function) map[int64]bool {
 	return runeConstsCompared(fn, func(v ssa.Value) bool { return true })
 }
 
+// constCharWrite: the call appends one constant character to a text buffer (WriteRune / WriteByte with a
+// constant, or WriteString with a one-character constant, on any buffer type).
+func constCharWrite(call *ssa.Call) (int64, bool) {
+	name := calleeName(call.Common())
+	args := call.Common().Args
+	if len(args) == 0 {
+		return 0, false
+	}
+	last := args[len(args)-1]
+	switch {
+	case strings.HasSuffix(name, ".WriteRune"), strings.HasSuffix(name, ".WriteByte"):
+		return constIntOf(last)
+	case strings.HasSuffix(name, ".WriteString"):
+		if s, ok := constString(last); ok && len(s) == 1 {
+			return int64(s[0]), true
+		}
+	}
+	return 0, false
+}
+
 func ruleC17QuoteStates(c *Ctx) {
 	c.Doc("c17.quote-states", "both hand-written scanners (DoubleQuotesToBackTick, FindArrayIndex) have a case for each of the three quote kinds of the consuming tokenizer (' \" `) and for the backslash; the quote rewriter writes a backtick only inside its double-quote arm (the two writes of '`' are dominated by the r == '\"' arm), and copies single-quoted and backtick-quoted text byte for byte")
 	c.NotDecidedClause("C17: equality of results between the two spellings of a query — values computed by hand-written byte scanners over all strings (no structural footprint); only thin necessary conditions are decided")
@@ -526,10 +538,10 @@ func ruleC17QuoteStates(c *Ctx) {
 	n, bad := 0, ""
 	allInstrs(f, func(b *ssa.BasicBlock, in ssa.Instruction) {
 		call, ok := in.(*ssa.Call)
-		if !ok || !strings.HasSuffix(calleeName(call.Common()), "WriteRune") {
+		if !ok {
 			return
 		}
-		k, isC := constIntOf(call.Common().Args[len(call.Common().Args)-1])
+		k, isC := constCharWrite(call)
 		if !isC || k != '`' {
 			return
 		}
